@@ -152,11 +152,45 @@ def coq_assumptions_file(pid, src):
     return res, out + err, True
 
 
-def forbidden_scan():
-    """grep the whole development; returns list of 'file:line: text'"""
+def coq_closure(pid):
+    """the .v files the property's theorem files (Properties*.v) and its extraction depend on, transitively, read from
+    the dependency file coq_makefile maintains; None when it cannot be determined (then the whole tree is scanned)"""
+    depf = COQ / ".Makefile.d"
+    if not depf.exists():
+        return None
+    deps = {}
+    for line in depf.read_text().splitlines():
+        if ":" not in line:
+            continue
+        lhs, rhs = line.split(":", 1)
+        tgt = lhs.split()[0]
+        if not tgt.endswith(".vo"):
+            continue
+        deps[tgt] = [d for d in rhs.split() if d.endswith(".vo")]
+    roots = [f"{pid}/{f.stem}.vo" for f in sorted((COQ / pid).glob("Properties*.v"))] + [f"{pid}/Extract.vo"]
+    if not any(r in deps for r in roots):
+        return None
+    seen, todo = set(), [r for r in roots if r in deps]
+    while todo:
+        t = todo.pop()
+        if t in seen:
+            continue
+        seen.add(t)
+        todo += deps.get(t, [])
+    return sorted(COQ / (t[:-1]) for t in seen)
+
+
+def forbidden_scan(pid=None):
+    """grep the development the property depends on (its transitive closure; the whole tree when pid is None or the
+    closure is unknown); returns list of 'file:line: text'"""
     hits = []
     pats = [re.compile(p) for p in FORBIDDEN]
-    for p in sorted(COQ.rglob("*.v")):
+    files = coq_closure(pid) if pid else None
+    if files is None:
+        files = sorted(COQ.rglob("*.v"))
+    for p in files:
+        if not p.exists():
+            continue
         depth = 0
         incomment = 0
         for ln, line in enumerate(p.read_text().splitlines(), 1):
@@ -374,8 +408,20 @@ def run_part(pid, tier="quick", seed=0, replay=None, report_pid=None):
     # ---- 1. Coq
     coq_ok, coq_log = coq_build(pid, getattr(prop, "EXTRA_COQ_TARGETS", ()))
     thms, asm_log, asm_ok = coq_assumptions(pid)
-    forb = forbidden_scan()
+    forb = forbidden_scan(pid)
+    evid_extra["forbidden_scan_files"] = len(coq_closure(pid) or [])
     broken_obl = list(gen_problems)
+    if tier == "thorough" and coq_ok and replay is None:
+        # independent re-check of the compiled theorem files and everything they depend on (coqchk), with the
+        # list of axioms of every loaded library (-o)
+        mods = [f"Tetl.{pid}.{f.stem}" for f in sorted((COQ / pid).glob("Properties*.v"))]
+        t1 = time.time()
+        rc, out, err = sh(["timeout", "3000", "coqchk", "-silent", "-o", "-Q", ".", "Tetl"] + mods, cwd=COQ, timeout=3100)
+        txt = (out + err)
+        evid_extra["coqchk"] = {"modules": mods, "exit": rc, "wall_s": round(time.time() - t1, 1),
+                                "report": txt[txt.find("CONTEXT SUMMARY"):][:6000] if "CONTEXT SUMMARY" in txt else txt[-3000:]}
+        if rc != 0:
+            broken_obl.append("coqchk rejects the compiled theorem files: " + txt[-1500:])
     if not coq_ok:
         broken_obl.append("coq build of %s/Properties.vo failed: %s" % (pid, coq_log[-1500:]))
     if not asm_ok:
